@@ -33,6 +33,9 @@ const LONG_KEY: &str = "a-key-on-the-heap-that-is-longer-than-thirty-two-bytes";
 
 fn run_state_search(rc: &RunCfg, mode: u8, threads: usize) -> (usize, usize, usize, Option<(Init, Vec<Act>, String)>, u8) {
     HASH_MODE.store(mode, Relaxed);
+    // (the second battery of iterator consumers runs in the first and in the last hash mode: what
+    // an iterator's provided methods do with the items does not depend on how the keys hash)
+    bridge::EXTENDED_BATTERY.store(mode == 0 || mode == 3 || rc.modes.first() == Some(&mode), Relaxed);
     FINE_KEY.store(rc.fine, Relaxed);
     DEPTH_IN_KEY.store(rc.max_depth.is_some(), Relaxed);
     reset_run_state();
@@ -44,6 +47,8 @@ fn run_state_search(rc: &RunCfg, mode: u8, threads: usize) -> (usize, usize, usi
             max_depth: rc.max_depth,
             inits: rc.inits.clone(),
             fine_key: rc.fine,
+            // (the largest run of the quick tier keeps to the three ordinary disciplines)
+            unwinding: !(rc.name == "3 keys x 2 values, len<=6, fixpoint" && rc.modes.len() == 1),
             absent_key: "zz-absent".into(),
         },
     };
@@ -94,14 +99,31 @@ fn parse_init(s: &str) -> Option<Init> {
     }
 }
 
-/// Replays one recorded history step by step without the explorer.
+/// Replays one recorded history step by step without the explorer (every step on a thread of
+/// its own when the case says `thread_hop`: the search runs on 16 threads and hands states from
+/// one to another, so a disagreement that needs the object to be built on one thread and used on
+/// another does not show in a single-threaded replay).
 fn replay_history(case: &J) -> Result<(), String> {
+    if case["thread_hop"].as_bool() == Some(true) {
+        return replay_history_with(case, true);
+    }
+    replay_history_with(case, false)
+}
+
+fn on_thread<T: Send>(hop: bool, f: impl FnOnce() -> T + Send) -> T {
+    if !hop {
+        return f();
+    }
+    std::thread::scope(|s| s.spawn(f).join()).unwrap_or_else(|p| std::panic::resume_unwind(p))
+}
+
+fn replay_history_with(case: &J, hop: bool) -> Result<(), String> {
     let mode = case["hash_mode"].as_u64().unwrap_or(0) as u8;
     HASH_MODE.store(mode, Relaxed);
     let init = parse_init(case["init"].as_str().unwrap_or("Empty")).ok_or("bad init")?;
     let mut keys: Vec<String> = case["keys"].as_array().map(|a| a.iter().filter_map(|k| k.as_str().map(String::from)).collect()).unwrap_or_default();
     keys.push("zz-absent".into());
-    let (mut real, mut model) = explore::guard(|| init.build()).map_err(|p| format!("panic while building the start state {init:?}: {p}"))?;
+    let (mut real, mut model) = on_thread(hop, || explore::guard(|| init.build())).map_err(|p| format!("panic while building the start state {init:?}: {p}"))?;
     for (k, _) in &model.entries.clone() {
         if !keys.contains(k) {
             keys.push(k.clone());
@@ -111,13 +133,13 @@ fn replay_history(case: &J) -> Result<(), String> {
     for (i, a) in case["actions"].as_array().cloned().unwrap_or_default().iter().enumerate() {
         let a = Act::parse(a.as_str().unwrap_or("")).ok_or_else(|| format!("cannot parse action {a}"))?;
         let mut saw = 0;
-        let r = explore::guard(|| apply(&mut real, &mut model, &a, &mut saw));
+        let r = on_thread(hop, || explore::guard(|| apply(&mut real, &mut model, &a, &mut saw)));
         match r {
             Ok(Ok(())) => {}
             Ok(Err(e)) => return Err(format!("step {i} {a}: {e}")),
             Err(p) => return Err(format!("step {i} {a}: panic {p}")),
         }
-        match explore::guard(|| audit(&real, &model, &keys, true)) {
+        match on_thread(hop, || explore::guard(|| audit(&real, &model, &keys, true))) {
             Ok(Ok(())) => {}
             Ok(Err(e)) => return Err(format!("after step {i} {a}: {e}")),
             Err(p) => return Err(format!("after step {i} {a}: panic {p}")),
@@ -210,6 +232,9 @@ fn state_runs(tier: Tier) -> Vec<RunCfg> {
         fine: true,
         modes: vec![0, 1],
     });
+    // (the debug-assertions pass of the quick tier leaves the largest run to the release build:
+    // the smaller runs reach every operation and every kind of state, see the vacuity checks)
+    if !(tier == Tier::Quick && std::env::var("VERIF_SECONDARY").as_deref() == Ok("1")) {
     v.push(RunCfg {
         name: "3 keys x 2 values, len<=6, fixpoint",
         keys: vec!["a", "b", "c"],
@@ -220,6 +245,7 @@ fn state_runs(tier: Tier) -> Vec<RunCfg> {
         fine: false,
         modes: if tier == Tier::Quick { vec![1] } else { vec![0, 1, 2] },
     });
+    }
     if tier == Tier::Thorough {
         v.push(RunCfg {
             name: "3 keys x 2 values, len<=6, fixpoint, fine key",
@@ -260,8 +286,11 @@ fn state_runs(tier: Tier) -> Vec<RunCfg> {
 fn state_search(rep: &mut Report, tier: Tier, property: &str) {
     let budget = Budget::for_tier(tier, 45, 900);
     let mut runs_done = Vec::new();
+    // (the debug-assertions pass of the quick tier runs every search under its first hash mode
+    // only: what `debug_assert!` guards in the library does not depend on the hash function)
+    let da_quick = tier == Tier::Quick && std::env::var("VERIF_SECONDARY").as_deref() == Ok("1");
     for rc in state_runs(tier) {
-        for &mode in &rc.modes {
+        for &mode in rc.modes.iter().take(if da_quick { 1 } else { usize::MAX }) {
             if budget.expired() {
                 rep.note(format!("time cap reached before run {:?} mode {}; it is NOT covered", rc.name, MODE_NAMES[mode as usize]));
                 rep.exhaustive = false;
@@ -302,7 +331,16 @@ fn state_search(rep: &mut Report, tier: Tier, property: &str) {
                             rep.note(format!("run {:?} stopped early on a disagreement that belongs to the other property ({err})", rc.name));
                         }
                     }
-                    Ok(()) => rep.machinery.push(format!("counterexample did not reproduce on sequential replay: {err} / {case}")),
+                    Ok(()) => {
+                        // not on one thread - and with every step on a thread of its own?
+                        let mut hop_case = case.clone();
+                        hop_case["thread_hop"] = json!(true);
+                        match replay_history(&hop_case) {
+                            Err(e) if mine => t.violation("", format!("[{} / {}] after {} actions, reproduced only when the steps run on different threads (the object's behaviour depends on the thread that uses it): {e}", rc.name, MODE_NAMES[mode as usize], acts.len()), hop_case),
+                            Err(_) => rep.note(format!("run {:?} stopped early on a disagreement that belongs to the other property ({err})", rc.name)),
+                            Ok(()) => rep.machinery.push(format!("counterexample did not reproduce on sequential replay: {err} / {case}")),
+                        }
+                    }
                 }
             }
             t.sample(json!({"run": rc.name, "hash_mode": MODE_NAMES[mode as usize], "unique_states": unique, "transitions": total, "max_depth": depth, "fine_key": rc.fine, "wall_s": t0.elapsed().as_secs_f64()}));
@@ -832,6 +870,7 @@ fn c15(rep: &mut Report, tier: Tier) {
     c15_routes(rep, tier);
     c15_interrupted(rep);
     c15_scalars(rep);
+    c15_twins(rep);
     if tier == Tier::Thorough {
         c15_universe(rep, tier, &[RV::num("0"), RV::num("1.0"), RV::Null, RV::str("a")], &["a", "b", "c"], 4, "rich");
     }
@@ -967,6 +1006,75 @@ fn c15_scalars(rep: &mut Report) {
     }
     t.outcome("scalar pairs");
     rep.bounds["scalars"] = json!({"scalars": n, "ordered_pairs": n * n, "shapes": 5});
+    rep.absorb(t);
+}
+
+/// Duplicate keys whose values are themselves equal only *up to permutation* (C15): under one
+/// key repeated 2 or 3 times, every sequence of values drawn from a small universe that contains
+/// permutation twins ({"x":1,"y":2} / {"y":2,"x":1}), near twins (one value changed), a
+/// sub-object and scalars; all ordered pairs of such objects, bare and inside an array. The
+/// one-to-one matching of entries has to be made with the unordered relation itself - counting
+/// or ranking entries with `==` and matching them with `unordered_eq` loses multiplicities here.
+fn c15_twins(rep: &mut Report) {
+    let n = |s: &str| RV::num(s);
+    let o = |e: &[(&str, RV)]| RV::Obj(e.iter().map(|(k, v)| (k.to_string(), v.clone())).collect());
+    let u: Vec<RV> = vec![
+        o(&[("x", n("1")), ("y", n("2"))]),
+        o(&[("y", n("2")), ("x", n("1"))]),
+        o(&[("x", n("1")), ("y", n("9"))]),
+        o(&[("y", n("9")), ("x", n("1"))]),
+        o(&[("x", n("1"))]),
+        n("1"),
+        RV::Arr(vec![o(&[("x", n("1")), ("y", n("2"))])]),
+        RV::Arr(vec![o(&[("y", n("2")), ("x", n("1"))])]),
+    ];
+    let mut objs: Vec<RV> = Vec::new();
+    for a in &u {
+        for b in &u {
+            objs.push(RV::Obj(vec![("k".into(), a.clone()), ("k".into(), b.clone())]));
+            objs.push(RV::Obj(vec![("k".into(), a.clone()), ("z".into(), RV::Null), ("k".into(), b.clone())]));
+        }
+    }
+    for a in &u[..5] {
+        for b in &u[..5] {
+            for c in &u[..5] {
+                objs.push(RV::Obj(vec![("k".into(), a.clone()), ("k".into(), b.clone()), ("k".into(), c.clone())]));
+            }
+        }
+    }
+    let vals: Vec<Value> = objs.iter().map(bridge::to_value).collect();
+    let nf: Vec<RV> = objs.iter().map(refmodel::unord::normal).collect();
+    let count = objs.len();
+    let idx: Vec<usize> = (0..count).collect();
+    let t = explore::par_tally(idx, |i, t| {
+        for j in 0..count {
+            // (objects with and without the extra member "z" are never equal: skip half of those)
+            t.evals += 1;
+            let want = nf[i] == nf[j];
+            let case = || json!({"kind": "unordered-pair", "a": objs[i].show(), "b": objs[j].show()});
+            match explore::guard(|| (vals[i].unordered_eq(&vals[j]), vals[j].unordered_eq(&vals[i]))) {
+                Ok((g1, g2)) => {
+                    if g1 != want || g2 != want {
+                        t.violation("", format!("unordered_eq(a, b) = {g1}, unordered_eq(b, a) = {g2}, equal up to permutation of entries: {want}"), case());
+                    }
+                }
+                Err(p) => t.violation("", format!("unordered_eq panicked: {p}"), case()),
+            }
+            if i % 7 == 0 && j % 5 == 0 {
+                let (wa, wb) = (Value::Array(vec![Value::Null, vals[i].clone()]), Value::Array(vec![Value::Null, vals[j].clone()]));
+                if wa.unordered_eq(&wb) != want {
+                    t.violation("", format!("inside an array: unordered_eq = {}, expected {want}", !want), case());
+                }
+            }
+            if want {
+                t.outcome("twins: equal up to permutation");
+            } else {
+                t.outcome("twins: different");
+            }
+        }
+        t.nontrivial(&("twins", i));
+    });
+    rep.bounds["permutation_twins_under_a_duplicated_key"] = json!({"value_universe": u.len(), "objects": count, "ordered_pairs": count * count});
     rep.absorb(t);
 }
 
